@@ -46,24 +46,20 @@ RESIZE = [
 def run(ctx):
     thorough = ctx.tier == 'thorough'
     exe = tc.build(ctx)
-    cfgs = [('MC_ts1.cfg', 'TaskSet, 1 worker: inline/queued/pool-inline, bulk, thrower, tryWait, wait, destructor'),
-            ('MC_pool0.cfg', 'pool without threads: TaskSet + kHeavy ConcurrentTaskSet'),
-            ('MC_recursive.cfg', 'tasks scheduling into their own ConcurrentTaskSet, tryWait polling')]
-    if thorough:
-        cfgs += [('MC_ts2.cfg', 'TaskSet, 2 workers: ring fast path, FQ single and bulk'),
-                 ('MC_heavy.cfg', 'kHeavy ConcurrentTaskSet, 2 workers: schedulePlaced, skipRecheck, bulk placed'),
-                 ('MC_nested.cfg', 'set nested in a task (cascade) cancelled from a second thread')]
-    tc.check_models(ctx, cfgs, WHAT)
+    tc.check_models(ctx, 'MC_c02_thorough.cfg' if thorough else 'MC_c02_quick.cfg', WHAT,
+                    'TaskSet 1 worker (inline/queued/pool-inline, bulk, thrower, tryWait, wait, destructor); pool without threads; recursion'
+                    + ('; 2 workers ring fast path + FQ; kHeavy; nested cascade set' if thorough else ''))
     rng = random.Random(ctx.seed * 7919 + 2)
     g = tc.Gen(rng)
     n = 6 if thorough else 2
-    r = tc.run_scenarios(ctx, exe, FIXED if thorough else FIXED[::2] if ctx.seed % 2 else FIXED[1::2], WHAT, n, ctx.seed, 'fixed programs')
     scens = [g.single(throws=0.1, cancel=0.2, nested=0.4) for _ in range(60 if thorough else 8)]
-    r2 = tc.run_scenarios(ctx, exe, scens, WHAT, n, ctx.seed + 1, 'random programs')
-    rz = RESIZE + [g.single(throws=0.0, cancel=0.1, nested=0.0, pools=(1, 2, 3), two=1.0, resize=True) for _ in range(20 if thorough else 2)]
-    r3 = tc.run_scenarios(ctx, exe, rz, WHAT, (10 if thorough else 2), ctx.seed + 2, 'ring fast path racing resize')
-    ctx.cov['executions'] = {'fixed': r['executions'], 'random': r2['executions'], 'resize': r3['executions']}
+    rz = [g.single(throws=0.0, cancel=0.1, nested=0.0, pools=(1, 2, 3), two=1.0, resize=True) for _ in range(20 if thorough else 2)]
+    r = tc.run_scenarios(ctx, exe, [
+        ('fixed programs', FIXED if thorough else FIXED[ctx.seed % 2::2], n),
+        ('random programs', scens, n),
+        ('ring fast path racing resize (directed)', RESIZE[:3], 2 if thorough else 1),
+        ('ring fast path racing resize', RESIZE[3:] + rz, 10 if thorough else 2)], WHAT, ctx.seed)
     ctx.sample({'programs': scens[:4] + RESIZE[:2]})
-    if r3['traces']:
-        ctx.sample_trace(r3['traces'][0], 12, skip=60)
+    if r['traces']:
+        ctx.sample_trace(r['traces'][0], 12, skip=60)
     ctx.assumptions += tc.ASSUME
